@@ -45,9 +45,12 @@ def plan(tier, seed):
                           auto=(k % 3 == 2), dynamic=(k % 4 == 1 or
                                                       k % 6 == 2),
                           hashseed=k))
+    # instances beyond truth tables (12-70 variables), see vf/big.py
+    from vf import big
+    specs.extend(big.specs(tier, seed, 'C02'))
     meta = dict(
         rule=RULE,
-        require=['route_results', 'all4_functions', 'steps',
+        require=['big_histories', 'route_results', 'all4_functions', 'steps',
                  'quiescent_checks', 'route_nodes', 'route_copy',
                  'route_pickle', 'route_expr', 'dynamic_histories',
                  'built_through_autoref_find_or_add'],
@@ -259,5 +262,8 @@ def _history(ctx, spec, rng, names, kind, reg, dynamic):
 
 
 def run_shard(ctx, spec):
+    if spec['kind'] == 'big':
+        from vf import big
+        return ctx.guard('big', big.run, ctx, spec, case=spec)
     fn = dict(routes3=routes3, all4=all4, history=history)[spec['kind']]
     ctx.guard(spec['kind'], fn, ctx, spec, case=spec)
